@@ -155,7 +155,7 @@ package sftp
 // client connection (conn.go)
 
 //@ func (*clientConn).sendPacket
-//@   property C20, C03, C04
+//@   property C20, C03, C04, C15
 //@   results typ, data, err
 //@   requires c != nil && c.inflight != nil && c.WriteCloser != nil && ctx != nil && p != nil
 //@   requires ghost.idFresh && p.id() == ghost.lastID
@@ -189,7 +189,7 @@ package sftp
 //  because every caller holds the connection's write lock across the call)
 
 //@ func (*conn).sendPacket
-//@   property C03
+//@   property C03, C15
 //@   requires c != nil && c.WriteCloser != nil && m != nil
 //@   assert before call sendPacket#1: locked(&c.Mutex)
 //@   modifies bytes
@@ -1411,7 +1411,7 @@ package sftp
 //@ pred ccOK(c *clientConn) = c != nil && c.inflight != nil && c.Reader != nil && c.WriteCloser != nil && (c.alloc == nil || c.alloc.used != nil)
 
 //@ func (*clientConn).recv
-//@   property C20, C03, C04
+//@   property C20, C03, C04, C15
 //@   requires ccOK(c)
 //@   loop 1 invariant ccOK(c)
 //@   loop 1 ghost consumeOK, consumeSid
@@ -1428,7 +1428,7 @@ package sftp
 // (recv never returns nil; whatever it returns, io.EOF at a packet boundary included, is announced to every waiter)
 
 //@ func (*clientConn).putChannel
-//@   property C20, C03, C04
+//@   property C20, C03, C04, C15
 //@   requires c != nil && c.inflight != nil && ch != nil
 //@   ensures c.inflight != nil
 //@   ensures result ==> haskey(c.inflight, sid) && c.inflight[sid] == ch
@@ -1445,7 +1445,7 @@ package sftp
 //  else may remove an entry, so an abandoned request keeps its entry until its own reply arrives.)
 
 //@ func (*clientConn).getChannel
-//@   property C20, C03, C04
+//@   property C20, C03, C04, C15
 //@   results ch, ok
 //@   requires c != nil && c.inflight != nil
 //@   requires ghost.consumeOK && ghost.consumeSid == sid
@@ -1457,7 +1457,7 @@ package sftp
 //@   ensures !haskey(c.inflight, sid)
 
 //@ func (*clientConn).dispatchRequest
-//@   property C20, C03, C04
+//@   property C20, C03, C04, C15
 //@   requires c != nil && c.inflight != nil && c.WriteCloser != nil && ch != nil && p != nil
 //@   requires ghost.idFresh && p.id() == ghost.lastID
 //@   ensures !ghost.idFresh
